@@ -57,6 +57,7 @@ pub struct World {
     known: HashSet<Vec<u8>>,
     /// tokens seen in replies of real nodes, `K<n>` by first appearance
     toks: Vec<Vec<u8>>,
+    tok_known: HashSet<Vec<u8>>,
     pub last: Vec<Ev>,
 }
 
@@ -68,7 +69,7 @@ impl World {
     fn new() -> World {
         let notify = Arc::new(Notify::new());
         btdht::verif::trace_enable(Some(notify.clone()));
-        World { clock: VClock::start(), notify, nodes: BTreeMap::new(), by_addr: HashMap::new(), names: vec![], known: HashSet::new(), toks: vec![], last: vec![] }
+        World { clock: VClock::start(), notify, nodes: BTreeMap::new(), by_addr: HashMap::new(), names: vec![], known: HashSet::new(), toks: vec![], tok_known: HashSet::new(), last: vec![] }
     }
     pub fn now(&self) -> u128 { self.clock.now_ns() }
 
@@ -113,24 +114,38 @@ impl World {
         self.now()
     }
 
-    fn tid_str(&mut self, tid: &[u8], is_query: bool) -> String {
-        if is_query { self.known.insert(tid.to_vec()); }
-        if self.known.contains(tid) {
-            let k = match self.names.iter().position(|n| n == tid) {
-                Some(k) => k,
-                None => { self.names.push(tid.to_vec()); self.names.len() - 1 }
-            };
-            format!("#{k}")
-        } else {
-            format!("x{}", hex_or_dash(tid))
-        }
+    /// `{hex}` for an id a real node drew (named `#k` when the line is rendered), `x<hex>` otherwise
+    fn tid_str(&mut self, tid: &[u8], own: bool) -> String {
+        if own { self.known.insert(tid.to_vec()); }
+        if self.known.contains(tid) { format!("{{{}}}", hex(tid)) } else { format!("x{}", hex_or_dash(tid)) }
     }
+    /// `<hex>` placeholder of a token issued by a real node (named `K<n>` at rendering)
     fn tok_str(&mut self, tok: &[u8]) -> String {
-        let k = match self.toks.iter().position(|n| n == tok) {
-            Some(k) => k,
-            None => { self.toks.push(tok.to_vec()); self.toks.len() - 1 }
-        };
-        format!("K{k}")
+        if !self.tok_known.contains(tok) { self.tok_known.insert(tok.to_vec()); }
+        format!("<{}>", hex(tok))
+    }
+    /// names by first appearance in the canonical line
+    fn rename(&mut self, line: &str) -> String {
+        let mut res = String::with_capacity(line.len());
+        let mut rest = line;
+        loop {
+            let i = match (rest.find('{'), rest.find('<')) { (Some(a), Some(b)) => a.min(b), (Some(a), None) => a, (None, Some(b)) => b, (None, None) => break };
+            res.push_str(&rest[..i]);
+            let open = rest.as_bytes()[i];
+            let close = if open == b'{' { '}' } else { '>' };
+            let j = rest[i..].find(close).map(|j| i + j).unwrap_or(rest.len() - 1);
+            let bytes = unhex(&rest[i + 1..j]).unwrap_or_default();
+            if open == b'{' {
+                let k = match self.names.iter().position(|n| *n == bytes) { Some(k) => k, None => { self.names.push(bytes); self.names.len() - 1 } };
+                res.push_str(&format!("#{k}"));
+            } else {
+                let k = match self.toks.iter().position(|n| *n == bytes) { Some(k) => k, None => { self.toks.push(bytes); self.toks.len() - 1 } };
+                res.push_str(&format!("K{k}"));
+            }
+            rest = &rest[j + 1..];
+        }
+        res.push_str(rest);
+        res
     }
     /// message text without the `t=` word; tokens of real nodes' replies named `K<n>`
     fn body_text(&mut self, m: &Message, from_real_reply: bool) -> String {
@@ -140,7 +155,7 @@ impl World {
             if let Some(t) = w.strip_prefix("token=") {
                 if t != "none" && t != "-" {
                     let b = unhex(t).unwrap();
-                    if from_real_reply || self.toks.contains(&b) {
+                    if from_real_reply || self.tok_known.contains(&b) {
                         *w = format!("token={}", self.tok_str(&b));
                     }
                 }
@@ -176,8 +191,8 @@ impl World {
                 }
                 (Some("H"), Some("timer")) => match w[2] {
                     "refresh" => "H timer refresh".to_string(),
-                    "lookup_timeout" => format!("H timer timeout:{}", self.tid_str(&unhex(w[3]).unwrap(), false)),
-                    _ => format!("H timer endgame:{}", self.tid_str(&unhex(w[3]).unwrap(), false)),
+                    "lookup_timeout" => format!("H timer timeout:{}", self.tid_str(&unhex(w[3]).unwrap(), true)),
+                    _ => format!("H timer endgame:{}", self.tid_str(&unhex(w[3]).unwrap(), true)),
                 },
                 (Some("H"), Some("msg")) | (Some("S"), Some("routed")) | (Some("S"), Some("undecodable")) | (Some("B"), Some("handled")) | (Some("B"), Some("ignored")) => {
                     let a: SocketAddr = w[2].parse().unwrap();
@@ -190,39 +205,79 @@ impl World {
         out
     }
 
-    /// canonical result line: events grouped by instant, then by node (per-node order kept);
-    /// consecutive `X resolved` of a node sorted
-    fn render(evs: &[Ev]) -> String {
-        let mut evs: Vec<Ev> = evs.to_vec();
+    /// canonical result line: events grouped by instant, then by node (per-node order kept); in
+    /// each group the API-side events (`X ...`, logged by other tasks) come last, resolutions
+    /// first among them and ordered by waiter; `H bstate false` (a no-op) is dropped
+    fn render(&mut self, evs: &[Ev]) -> String {
+        let mut evs: Vec<Ev> = evs.iter().filter(|e| e.text != "H bstate false").cloned().collect();
         evs.sort_by_key(|e| (e.t, e.node)); // stable
-        // sort runs of `X resolved`
+        let mut out: Vec<Ev> = vec![];
         let mut i = 0;
         while i < evs.len() {
             let mut j = i;
-            while j < evs.len() && evs[j].text.starts_with("X resolved") && evs[j].node == evs[i].node && evs[j].t == evs[i].t { j += 1 }
-            if j > i + 1 { evs[i..j].sort_by_key(|e| e.text.split_whitespace().nth(2).and_then(|x| x.parse::<usize>().ok()).unwrap_or(0)); }
-            i = j.max(i + 1);
+            while j < evs.len() && evs[j].t == evs[i].t && evs[j].node == evs[i].node { j += 1 }
+            let g = &evs[i..j];
+            out.extend(g.iter().filter(|e| !e.text.starts_with("X ")).cloned());
+            let mut res: Vec<Ev> = g.iter().filter(|e| e.text.starts_with("X resolved")).cloned().collect();
+            res.sort_by_key(|e| e.text.split_whitespace().nth(2).and_then(|x| x.parse::<usize>().ok()).unwrap_or(0));
+            out.extend(res);
+            out.extend(g.iter().filter(|e| e.text.starts_with("X ") && !e.text.starts_with("X resolved")).cloned());
+            i = j;
         }
         let mut parts = vec![];
         let mut last_t = None;
-        for e in &evs {
+        for e in &out {
             let p = if last_t != Some(e.t) { last_t = Some(e.t); format!("@{} n{} {}", e.t, e.node, e.text) } else { format!("n{} {}", e.node, e.text) };
             parts.push(p);
         }
-        parts.join(" ; ")
+        let line = parts.join(" ; ");
+        // the events keep the rendered names too (the simulator and the oracles read them)
+        self.rename(&line)
+    }
+
+    /// oracle annotations of an op, derived from what the real nodes did: the order in which the
+    /// first-round contacts (a hash set) were visited; a worker step that preceded a timer step of
+    /// the handler at the same instant
+    pub fn hints(&self) -> String {
+        let mut fr = vec![];
+        let mut bfirst: Vec<usize> = vec![];
+        let mut ambiguous = false;
+        for (i, e) in self.last.iter().enumerate() {
+            if e.text.starts_with("W ") && e.text.contains(" q find_node ") {
+                let w: Vec<&str> = e.text.split_whitespace().collect();
+                if let (Some(id), Some(tg)) = (kv(&w, "id"), kv(&w, "target")) {
+                    if id == tg { fr.push(format!("{}/{}", e.node, w[1].split('/').next().unwrap_or(""))); }
+                }
+            }
+            if e.text.starts_with("H timer") {
+                let before: Vec<&Ev> = self.last[..i].iter().filter(|p| p.t == e.t && p.node == e.node).collect();
+                if before.iter().any(|p| p.text.starts_with("B ")) {
+                    if !bfirst.contains(&e.node) { bfirst.push(e.node) }
+                    // the handler then had its timer and the worker's new state ready at once and
+                    // picks one at random: not modelled when the new state is Bootstrapped, nor
+                    // when handler steps surround the worker's
+                    if before.iter().any(|p| p.text == "B state Bootstrapped" || p.text.starts_with("H timer")) { ambiguous = true }
+                }
+            }
+        }
+        let mut s = String::new();
+        if !fr.is_empty() { s.push_str(&format!(" ~fr={}", fr.join(","))); }
+        if !bfirst.is_empty() { s.push_str(&format!(" ~bfirst={}", bfirst.iter().map(|k| k.to_string()).collect::<Vec<_>>().join(","))); }
+        if ambiguous { s.push_str(" ~unmodelled"); }
+        s
     }
 
     pub fn has_node(&self, k: usize) -> bool { self.nodes.contains_key(&k) }
     pub fn names_pos(&self, tid: &[u8]) -> Option<usize> { self.names.iter().position(|n| n == tid) }
     /// text of a message that is delivered as an input (tokens issued by real nodes by name)
-    pub fn body_text_in(&mut self, m: &Message) -> String { self.body_text(m, false) }
+    pub fn body_text_in(&mut self, m: &Message) -> String { let t = self.body_text(m, false); self.rename(&t) }
     pub async fn sleep_until_activity_pub(&mut self, limit: u128, raw: &mut Vec<(std::time::Instant, String)>) -> u128 {
         self.sleep_until_activity(limit, raw).await
     }
     /// result of an `adv` op whose events were already collected
     pub fn finish_adv(&mut self, raw: Vec<(std::time::Instant, String)>) -> String {
         let evs = self.canon(raw);
-        let line = World::render(&evs);
+        let line = self.render(&evs);
         self.last = evs;
         if line.is_empty() { "-".into() } else { line }
     }
@@ -371,7 +426,7 @@ impl World {
         }
         self.settle(&mut raw).await;
         let evs = self.canon(raw);
-        let line = World::render(&evs);
+        let line = self.render(&evs);
         self.last = evs;
         if line.is_empty() { "-".into() } else { line }
     }
@@ -396,7 +451,7 @@ impl Engine for NodeEngine {
                 }
                 let r = world.exec(req, st).await;
                 crate::engines::node_sim::check_events(&world, req, case, out.len(), st);
-                out.push((req.clone(), r));
+                out.push((format!("{req}{}", world.hints()), r));
             }
         })
     }
